@@ -1,4 +1,5 @@
 import Posmint.Lemmas.Codec
+import Posmint.Generated
 import Posmint.Lemmas.CoinText
 /-!
 # C20 — Encodings round-trip, sign bytes are canonical, malformed input is refused
@@ -427,5 +428,97 @@ theorem signing_injective (v w : SigningRec) (hv : SInRange v) (hw : SInRange w)
   obtain ⟨ec, en⟩ := et
   subst e1 s1 s2 s3 ej ec en
   rfl
+
+/-! ## the transaction itself -/
+
+/-- two transactions with the same bytes are the same transaction: message, fee, key, signature, memo and entropy -/
+theorem stdTx_injective (pre : Bytes) (t u : StdTxRec) (ht : StdTxInRange t) (hu : StdTxInRange u)
+    (e : encodeStdTx pre t = encodeStdTx pre u) : t = u := by
+  unfold encodeStdTx at e
+  have ec := List.append_cancel_left e
+  have d1 := decodeStdTxCore_encode t ht
+  have d2 := decodeStdTxCore_encode u hu
+  rw [ec, d2] at d1
+  simp only [Option.some.injEq, Prod.mk.injEq] at d1
+  obtain ⟨em, ef, etl⟩ := d1
+  simp only [stdTxTail, List.cons.injEq, Fld.bytes.injEq, Fld.uint.injEq, and_true] at etl
+  obtain ⟨es, ememo, eent⟩ := etl
+  have hs := encodeStruct_injective 1 [.bytes u.pk, .bytes u.sig] [.bytes t.pk, .bytes t.sig] rfl (by simp)
+    (by intro f hf; simp only [List.mem_cons, List.not_mem_nil, or_false] at hf
+        have e32 : (2:Nat) ^ 32 = 4294967296 := by decide
+        have e64 : (2:Nat) ^ 64 = 18446744073709551616 := by decide
+        rcases hf with rfl | rfl
+        · show u.pk.length < 2 ^ 64; have := hu.2.2.1; omega
+        · show u.sig.length < 2 ^ 64; have := hu.2.2.2.1; omega)
+    (by intro f hf; simp only [List.mem_cons, List.not_mem_nil, or_false] at hf
+        have e32 : (2:Nat) ^ 32 = 4294967296 := by decide
+        have e64 : (2:Nat) ^ 64 = 18446744073709551616 := by decide
+        rcases hf with rfl | rfl
+        · show t.pk.length < 2 ^ 64; have := ht.2.2.1; omega
+        · show t.sig.length < 2 ^ 64; have := ht.2.2.2.1; omega) es
+  simp only [List.cons.injEq, Fld.bytes.injEq, and_true] at hs
+  have eent' := toU64_injective u.entropy t.entropy ⟨hu.2.2.2.2.2.1, hu.2.2.2.2.2.2⟩ ⟨ht.2.2.2.2.2.1, ht.2.2.2.2.2.2⟩ eent
+  obtain ⟨a1, a2, a3, a4, a5, a6⟩ := t
+  obtain ⟨b1, b2, b3, b4, b5, b6⟩ := u
+  simp only at em ef ememo eent' hs
+  obtain ⟨h3, h4⟩ := hs
+  subst em ef ememo eent' h3 h4
+  rfl
+
+/-- non-vacuity: a transfer with a two-coin fee, a key, a signature, a memo and a negative entropy is in range -/
+example : StdTxInRange ⟨[1, 2, 3], [⟨[97, 98, 99], 9⟩, ⟨[117], 5⟩], [7], [9, 9], [109], -3⟩ := by
+  unfold StdTxInRange
+  refine ⟨by simp, ?_, by simp, by simp, by simp, by decide, by decide⟩
+  intro c hc
+  simp only [List.mem_cons, List.not_mem_nil, or_false] at hc
+  rcases hc with rfl | rfl <;> simp
+
+/-! ## the shapes the struct models assume, against the declarations regenerated from the Go source
+
+`Generated.schema…` lists each struct's fields (name, declared type) as `factx` reads them from the current source on
+every run.  The theorems below fail to compile when a field is added, removed, reordered or retyped: the model of the
+encoding would then no longer be the model of that struct. -/
+
+/-- how a declared field type travels: `true` length-delimited, `false` varint (`sdk.Coins`, a repeated field, apart) -/
+def wireOf : String → Option Bool
+  | "sdk.Address" => some true
+  | "crypto.PublicKey" => some true
+  | "posCrypto.PublicKey" => some true
+  | "sdk.Int" => some true
+  | "Int" => some true
+  | "time.Time" => some true
+  | "string" => some true
+  | "[]byte" => some true
+  | "sdk.Msg" => some true
+  | "StdSignature" => some true
+  | "bool" => some false
+  | "sdk.StakeStatus" => some false
+  | "int64" => some false
+  | _ => none
+
+theorem validator_shape (v : ValidatorRec) :
+    Generated.schemaValidator.map (fun f => wireOf f.2) = (validatorFields v).map (fun f => some f.kind) := by
+  simp [Generated.schemaValidator, wireOf, validatorFields, Fld.kind]
+
+theorem signing_shape (v : SigningRec) :
+    Generated.schemaSigningInfo.map (fun f => wireOf f.2) = (signingFields v).map (fun f => some f.kind) := by
+  simp [Generated.schemaSigningInfo, wireOf, signingFields, Fld.kind]
+
+/-- the five flat messages: every declared field is length-delimited, in the order the harness passes them -/
+theorem flat_messages_shape :
+    Generated.schemaMsgSend.map (fun f => wireOf f.2) = [some true, some true, some true] ∧
+    Generated.schemaMsgBeginUnstake.map (fun f => wireOf f.2) = [some true] ∧
+    Generated.schemaMsgUnjail.map (fun f => wireOf f.2) = [some true] ∧
+    Generated.schemaMsgDAOTransfer.map (fun f => wireOf f.2) = [some true, some true, some true, some true] ∧
+    Generated.schemaMsgChangeParam.map (fun f => wireOf f.2) = [some true, some true, some true] := by
+  simp [Generated.schemaMsgSend, Generated.schemaMsgBeginUnstake, Generated.schemaMsgUnjail, Generated.schemaMsgDAOTransfer,
+    Generated.schemaMsgChangeParam, wireOf]
+
+/-- the transaction: message, repeated fee, signature struct (key, bytes), memo, entropy - the layout of `encodeStdTx` -/
+theorem stdTx_shape :
+    Generated.schemaStdTx.map (·.2) = ["sdk.Msg", "sdk.Coins", "StdSignature", "string", "int64"] ∧
+    Generated.schemaStdSignature.map (fun f => wireOf f.2) = [some true, some true] ∧
+    Generated.schemaCoin.map (fun f => wireOf f.2) = [some true, some true] := by
+  simp [Generated.schemaStdTx, Generated.schemaStdSignature, Generated.schemaCoin, wireOf]
 
 end Posmint.Props.C20
